@@ -1,11 +1,12 @@
 import Cpl.Driver.Proto
 import Cpl.Driver.OpsBits
+import Cpl.Driver.OpsEvolve1D
 
 open Cpl.Proto Cpl.Driver
 
 def dispatch (line : String) : String :=
   let (op, a) := parseLine line
-  let handlers : List (String → Args → Option String) := [opsBits]
+  let handlers : List (String → Args → Option String) := [opsBits, opsEvolve1D]
   match handlers.findSome? (fun h => h op a) with
   | some out => out
   | none => badOp
